@@ -156,6 +156,23 @@ def stageOp (d : StageDrv) (ws : List String) : Option (StageDrv × List Prim ×
   | ["cleanwaiting"] => some (d, cleanWaitingEffects s d.names, "ok")
   | _ => none
 
+def applyOp (d : StageDrv) (ws : List String) : StageDrv × String :=
+  match stageOp d ws with
+  | some (d', ps, ans) => (runPs d' ps, ans)
+  | none => (d, "bad-op")
+
+/-- `first` overlapped by the reception `[n, renamed, prev, size, hash, beg, fin, data, now]` -/
+def raceWith (d : StageDrv) (first : List String) (second : List String) : StageDrv × String :=
+  match second with
+  | [n, renamed, prev, size, hash, beg, fin, data, now] =>
+    let (d1, a0) := applyOp d ["ropen", "9999", n, renamed, prev, size, hash, beg, fin]
+    let (d2, a1) := applyOp d1 first
+    if a0 == "ok" then
+      let (d3, a2) := applyOp d2 ["rwrite", "9999", data, now]
+      (d3, a1 ++ " ;; " ++ a2)
+    else (d2, a1 ++ " ;; " ++ a0)
+  | _ => (d, "bad-op")
+
 def stageStep (d : StageDrv) (ws : List String) : StageDrv × String :=
   match ws with
   | ["observe"] => (d, observe d)
@@ -189,6 +206,13 @@ def stageStep (d : StageDrv) (ws : List String) : StageDrv × String :=
     | _, _ => (d, "bad-op")
   | ["scan"] =>
     (d, section_ "partials" (d.names.filterMap (fun n => (d.st.disk.cmp n).map (fun c => esc n ++ "=" ++ fmtCmp c))))
+  -- two operations overlapping in time (the harness holds the first at a pause point inside
+  -- its locked region while the second starts): the second reception opens its partial
+  -- first, the first operation runs, then the second writes and records.
+  | "racerecv" :: n :: renamed :: prev :: size :: hash :: beg :: fin :: data :: now :: ";;" :: rest =>
+    raceWith d ["recv", n, renamed, prev, size, hash, beg, fin, data, now] rest
+  | "raceproc" :: n :: now :: ";;" :: rest => raceWith d ["process", n, now] rest
+  | "racefin" :: n :: now :: ";;" :: rest => raceWith d ["finh", n, now] rest
   | "cut" :: k :: rest =>
     match parseNat? k, stageOp d rest with
     | some k, some (d', ps, ans) =>
